@@ -15,6 +15,7 @@ import logging
 import math
 import os
 import pickle
+import sys
 from numbers import Number
 
 import networkx as nx
@@ -230,7 +231,9 @@ class ExcelCompiler:
         if not is_json:
             with open(filename, 'w') as f:
                 ymlo = YAML()
-                ymlo.width = 120
+                # folding a line at two or more blanks does not read back as
+                # written, and formulas do hold text with blanks: never fold
+                ymlo.width = sys.maxsize
                 ymlo.dump(extra_data, f)
         else:
             with open(filename, 'w') as f:
